@@ -19,7 +19,7 @@ type parser struct {
 }
 
 func (p *parser) peek() Token { return p.toks[p.i] }
-func (p *parser) next() Token  { t := p.toks[p.i]; p.i++; return t }
+func (p *parser) next() Token { t := p.toks[p.i]; p.i++; return t }
 func (p *parser) isP(s string) bool {
 	t := p.peek()
 	return t.Kind == TPunct && t.Text == s
